@@ -9,13 +9,32 @@ theorem flowOk_at {md : Module} {hm : HMap} (h : flowOk md hm = true) {a : Nat} 
     flowOkAt md hm a = true ∧ frameOkAt md (funcStarts md) hm a = true := by
   unfold flowOk at h
   simp only [Bool.and_eq_true] at h
-  have := (List.all_eq_true.mp h.1) a (List.mem_range.mpr ha)
+  have := (List.all_eq_true.mp h.1.1.1) a (List.mem_range.mpr ha)
   simpa using this
 
 theorem flowOk_handlers {md : Module} {hm : HMap} (h : flowOk md hm = true) : handlersOk md hm = true := by
   unfold flowOk at h
   simp only [Bool.and_eq_true] at h
-  exact h.2
+  exact h.1.1.2
+
+theorem flowOk_starts {md : Module} {hm : HMap} (h : flowOk md hm = true) {a : Nat} (ha : a ∈ funcStarts md) :
+    ∃ st, hm[a]? = some (some st) ∧ st.h = 0 := by
+  unfold flowOk at h
+  simp only [Bool.and_eq_true] at h
+  have := (List.all_eq_true.mp h.1.2) a ha
+  split at this
+  · rename_i s hs; exact ⟨s, hs, by simpa using this⟩
+  · cases this
+
+theorem flowOk_entry {md : Module} {hm : HMap} (h : flowOk md hm = true) :
+    ∃ st, hm[0]? = some (some st) ∧ npAt md (funcStarts md) 0 + st.h = 0 := by
+  unfold flowOk at h
+  simp only [Bool.and_eq_true] at h
+  have := h.2
+  unfold entryOk at this
+  split at this
+  · rename_i s hs; exact ⟨s, hs, by simpa using this⟩
+  · cases this
 
 theorem lt_size_of_getElem? {α} {xs : Array α} {a : Nat} {x : α} (h : xs[a]? = some x) : a < xs.size := by
   rcases Nat.lt_or_ge a xs.size with h' | h'
